@@ -20,7 +20,7 @@ func init() {
 			"R2: in the overflow branch the removed key is the result of items.First(); the branch is guarded by the strict comparison Len()>capacity evaluated after the Add. " +
 			"R3: items.Add on the miss path is dominated by the nil edge of the create function's error. R4: the create call is dominated by the not-found edge of items.Get. " +
 			"R5: the expirable wrapper removes and re-creates exactly on the GetExpiresAt().Before(now) edge and returns the value unchanged otherwise. " +
-			"R6: from the found edge of items.Get(k) every path to the return passes items.Remove(k) and then items.Add(k, same value). " +
+			"R6: from the found edge of items.Get(k) every path to the return passes items.Remove(k) and then items.Add(k, same value). R7: from the success edge of the create call every path to an exit inserts the value. " +
 			"M1-M8: the ordered map keeps its list consistent (the rules of C10), since eviction order is the list order.",
 		NotDecided: "refinement of a reference LRU over all call sequences; callback accounting as a count.",
 	})
@@ -32,7 +32,7 @@ func init() {
 		Explanation: "R1: every method call on the recency list and every access to the in-flight table happens with the cache mutex held. " +
 			"R2: the create call is reached only by the goroutine that registered the in-flight entry; from the registration every path to an exit closes the channel and deletes the entry, in the same critical section as the insert; the in-flight table is written only by registration, by that cleanup and by the constructor. " +
 			"R3: waiting for an in-flight creation and the create call itself run with the lock released, and a waiter goes back to the lookup. " +
-			"R4: every insert on the miss path is followed, before the lock is released, by the capacity test. ",
+			"R4: every insert on the miss path is followed, before the lock is released, by the capacity test. R5: the delete callback runs under the mutex in the critical section of the removal it reports. Q1-Q7: the sequential LRU rules of C08 (a concurrent history must be equivalent to a sequential LRU history).",
 		NotDecided: "linearizability of histories; created-versus-deleted balance over schedules.",
 	})
 }
@@ -124,6 +124,13 @@ func (r *lruRoles) isLock(in ssa.Instruction) bool {
 }
 
 func runC08(c *Ctx) {
+	lruSequentialRules(c, "C08.R")
+	// M: the ordered map under the recency list
+	mapRules(c, "C08.M")
+}
+
+// lruSequentialRules runs the sequential LRU rules under the prefix pfx (C08.R, C09.Q).
+func lruSequentialRules(c *Ctx, pfx string) {
 	r := resolveLRURoles(c)
 	// R1 callback paired with removal
 	for _, fn := range r.methods {
@@ -139,7 +146,7 @@ func runC08(c *Ctx) {
 				return a != nil && same(a.Call.Args[1], key)
 			}
 			if w, _ := (ir.Query{Fn: fn, From: rem, Block: isReAdd, Target: func(x ssa.Instruction) bool { return ir.IsExit(x) || r.isUnlock(x) }}).Find(); w == nil {
-				c.Decide("C08.R1", fn, "removal paired with callback (re-insert of the same key)", rem, true, "")
+				c.Decide(pfx+"1", fn, "removal paired with callback (re-insert of the same key)", rem, true, "")
 				return
 			}
 			// the callback: invoked on all paths except the edge where it is nil
@@ -157,7 +164,7 @@ func runC08(c *Ctx) {
 				_, isCbY := loadOfField(cm.Y, r.onDel)
 				return (isCbX && ir.IsNilConst(cm.Y)) || (isCbY && ir.IsNilConst(cm.X))
 			}
-			if !c.NoPath("C08.R1", "removal paired with callback", rem, ir.Query{Fn: fn, From: rem, Block: isCb, BlockEdge: nilEdge, Target: ir.IsExit},
+			if !c.NoPath(pfx+"1", "removal paired with callback", rem, ir.Query{Fn: fn, From: rem, Block: isCb, BlockEdge: nilEdge, Target: ir.IsExit},
 				"an entry leaves the cache without the delete callback") {
 				return
 			}
@@ -173,11 +180,11 @@ func runC08(c *Ctx) {
 						ok = false
 					}
 				}
-				c.Decide("C08.R1", fn, "callback receives the removed entry", cb, ok, "the delete callback is not called with the key/value that were stored under the removed key")
+				c.Decide(pfx+"1", fn, "callback receives the removed entry", cb, ok, "the delete callback is not called with the key/value that were stored under the removed key")
 			})
 		})
 	}
-	c.R.Floor("C08.R1", 6)
+	c.R.Floor(pfx+"1", 6)
 
 	goc := r.getOrCreate
 	var getCall *ssa.Call
@@ -219,7 +226,7 @@ func runC08(c *Ctx) {
 					okFirst = true
 				}
 			}
-			c.Decide("C08.R2", goc, "evicted key = items.First()", rem, okFirst, "the evicted key is not the oldest entry of the recency list")
+			c.Decide(pfx+"2", goc, "evicted key = items.First()", rem, okFirst, "the evicted key is not the oldest entry of the recency list")
 			okCmp := hasFactCmp(rem.Block(), func(cm ir.Cmp) bool {
 				lenX := r.itemsCall(asInstr(cm.X), r.mLen) != nil
 				lenY := r.itemsCall(asInstr(cm.Y), r.mLen) != nil
@@ -245,10 +252,10 @@ func runC08(c *Ctx) {
 				})
 				return after
 			})
-			c.Decide("C08.R2", goc, "eviction guarded by Len() > capacity after the insert", rem, okCmp, "the eviction is not guarded by the strict test Len()>capacity evaluated after the insert (evicts one entry too early/late)")
+			c.Decide(pfx+"2", goc, "eviction guarded by Len() > capacity after the insert", rem, okCmp, "the eviction is not guarded by the strict test Len()>capacity evaluated after the insert (evicts one entry too early/late)")
 		})
 		if n == 0 {
-			c.Decide("C08.R2", goc, "GetOrCreate evicts on overflow", nil, false, "no eviction found in GetOrCreate")
+			c.Decide(pfx+"2", goc, "GetOrCreate evicts on overflow", nil, false, "no eviction found in GetOrCreate")
 		}
 	}
 	// R3, R4
@@ -269,7 +276,7 @@ func runC08(c *Ctx) {
 				}
 			}
 			ok := errV != nil && ir.ClassifyErr(errV, add.Block()) == ir.ErrNil
-			c.Decide("C08.R3", goc, "insert only when creation succeeded", add, ok, "a value is inserted although the create function may have failed")
+			c.Decide(pfx+"3", goc, "insert only when creation succeeded", add, ok, "a value is inserted although the create function may have failed")
 			// inserted value = the created one
 			okVal := false
 			for _, o := range pairFieldOrigins(add.Call.Args[2]) {
@@ -277,12 +284,12 @@ func runC08(c *Ctx) {
 					okVal = true
 				}
 			}
-			c.Decide("C08.R3", goc, "inserted value is the created one", add, okVal, "the inserted value is not the result of the create function")
+			c.Decide(pfx+"3", goc, "inserted value is the created one", add, okVal, "the inserted value is not the result of the create function")
 		})
 		if n == 0 {
-			c.Decide("C08.R3", goc, "miss path inserts", nil, false, "GetOrCreate never inserts a created value")
+			c.Decide(pfx+"3", goc, "miss path inserts", nil, false, "GetOrCreate never inserts a created value")
 		}
-		c.Decide("C08.R4", goc, "create only on a miss", createCall, foundFact(createCall.Block(), false) || c.onlyViaMiss(goc, getCall, createCall),
+		c.Decide(pfx+"4", goc, "create only on a miss", createCall, foundFact(createCall.Block(), false) || c.onlyViaMiss(goc, getCall, createCall),
 			"the create function can be called although the key is resident")
 	}
 	// R6 hit becomes most recent
@@ -299,7 +306,7 @@ func runC08(c *Ctx) {
 			}
 		}
 		if foundBlk == nil {
-			c.Undecided("C08.R6", goc, "hit becomes most recent", getCall, "cannot locate the found edge of the lookup")
+			c.Undecided(pfx+"6", goc, "hit becomes most recent", getCall, "cannot locate the found edge of the lookup")
 		} else {
 			isRem := func(x ssa.Instruction) bool {
 				rm := r.itemsCall(x, r.mRemove)
@@ -318,12 +325,12 @@ func runC08(c *Ctx) {
 				}
 				return false
 			}
-			ok1 := c.NoPath("C08.R6", "hit: entry removed from its old position", getCall, ir.Query{Fn: goc, FromBlock: foundBlk, Block: isRem, Target: ir.IsExit},
+			ok1 := c.NoPath(pfx+"6", "hit: entry removed from its old position", getCall, ir.Query{Fn: goc, FromBlock: foundBlk, Block: isRem, Target: ir.IsExit},
 				"a hit can return without moving the entry to the most-recent end: a later eviction removes a recently used entry")
 			if ok1 {
 				ir.Instrs(goc, func(x ssa.Instruction) {
 					if isRem(x) && foundFact(x.Block(), true) {
-						c.NoPath("C08.R6", "hit: entry re-added at the most-recent end", x, ir.Query{Fn: goc, From: x, Block: isAdd, Target: ir.IsExit},
+						c.NoPath(pfx+"6", "hit: entry re-added at the most-recent end", x, ir.Query{Fn: goc, From: x, Block: isAdd, Target: ir.IsExit},
 							"on a hit the entry is removed but not re-added with the same value")
 					}
 				})
@@ -337,16 +344,42 @@ func runC08(c *Ctx) {
 							okV = true
 						}
 					}
-					c.Decide("C08.R6", goc, "hit returns the resident value", ret, okV, "a hit does not return the resident value")
+					c.Decide(pfx+"6", goc, "hit returns the resident value", ret, okV, "a hit does not return the resident value")
 				}
 			}
 		}
 	}
 	// R5 expirable wrapper
-	c.expirableWrapper(r)
+	c.expirableWrapper(r, pfx+"5")
 
-	// M: the ordered map under the recency list
-	mapRules(c, "C08.M")
+	// R7 a successful creation becomes resident: from the success edge of the create call every path to an exit inserts
+	{
+		var errV ssa.Value
+		if createCall.Referrers() != nil {
+			for _, ref := range *createCall.Referrers() {
+				if ex, ok := ref.(*ssa.Extract); ok && ex.Index == 1 {
+					errV = ex
+				}
+			}
+		}
+		var okBlk *ssa.BasicBlock
+		for _, b := range goc.Blocks {
+			for _, sc := range b.Succs {
+				if f := ir.EdgeFact(b, sc); f != nil && errV != nil {
+					if cm, ok := f.Cmp(); ok && cm.Op == token.EQL && ir.Resolve(cm.X) == errV && ir.IsNilConst(cm.Y) {
+						okBlk = sc
+					}
+				}
+			}
+		}
+		if okBlk == nil {
+			c.Undecided(pfx+"7", goc, "created value becomes resident", createCall, "cannot find the success edge of the create function")
+		} else {
+			c.NoPath(pfx+"7", "created value becomes resident", createCall, ir.Query{Fn: goc, FromBlock: okBlk,
+				Block:  func(x ssa.Instruction) bool { return r.itemsCall(x, r.mAdd) != nil },
+				Target: ir.IsExit}, "a successfully created value can be returned without being inserted: it is neither resident nor ever passed to the delete callback (leaked), and the next request creates the key again")
+		}
+	}
 }
 
 func asInstr(v ssa.Value) ssa.Instruction {
@@ -478,7 +511,7 @@ func (c *Ctx) onlyViaMiss(fn *ssa.Function, get, create *ssa.Call) bool {
 	return w == nil && err == nil
 }
 
-func (c *Ctx) expirableWrapper(r *lruRoles) {
+func (c *Ctx) expirableWrapper(r *lruRoles, rule string) {
 	exp := c.P.LookupType("container/lru", "ExpirableCache")
 	if exp == nil {
 		c.Fatalf("role ExpirableCache not found")
@@ -505,7 +538,7 @@ func (c *Ctx) expirableWrapper(r *lruRoles) {
 		}
 	}
 	if len(gocs) < 2 || len(rems) < 1 {
-		c.Decide("C08.R5", fn, "expired item is removed and created again", nil, false, "the expirable wrapper does not remove and re-create a stale item")
+		c.Decide(rule, fn, "expired item is removed and created again", nil, false, "the expirable wrapper does not remove and re-create a stale item")
 		return
 	}
 	isExpired := func(b *ssa.BasicBlock, want bool) bool {
@@ -521,8 +554,8 @@ func (c *Ctx) expirableWrapper(r *lruRoles) {
 		})
 	}
 	for _, rm := range rems {
-		c.Decide("C08.R5", fn, "Remove only on the expired edge", rm, isExpired(rm.Block(), true), "the wrapper removes an item that is not expired (GetExpiresAt().Before(now))")
-		c.NoPath("C08.R5", "expired item is created again", rm, ir.Query{Fn: fn, From: rm,
+		c.Decide(rule, fn, "Remove only on the expired edge", rm, isExpired(rm.Block(), true), "the wrapper removes an item that is not expired (GetExpiresAt().Before(now))")
+		c.NoPath(rule, "expired item is created again", rm, ir.Query{Fn: fn, From: rm,
 			Block: func(x ssa.Instruction) bool {
 				for _, g := range gocs {
 					if x == ssa.Instruction(g) {
@@ -532,23 +565,31 @@ func (c *Ctx) expirableWrapper(r *lruRoles) {
 				return false
 			}, Target: ir.IsExit}, "a stale item is removed but not created again")
 	}
-	// what the re-creation returns is what the caller gets: value and error of the second GetOrCreate
+	// what the re-creation returns is what the caller gets: value and error of the second GetOrCreate reach every
+	// return that can follow it
 	for _, ret := range ir.Returns(fn) {
 		for _, g := range gocs[1:] {
-			if !ir.Dominates(g, ret) {
+			ret, g := ret, g
+			if w, _ := (ir.Query{Fn: fn, From: g, Target: func(x ssa.Instruction) bool { return x == ssa.Instruction(ret) }}).Find(); w == nil {
 				continue
 			}
-			okV, okE := false, false
-			if ir.Resolve(ir.ResultValue(ret, 0)) == ssa.Value(g) {
-				okV, okE = true, true // return g(...) directly
+			carries := func(v ssa.Value, idx int) bool {
+				if ir.Resolve(v) == ssa.Value(g) {
+					return true
+				}
+				for _, o := range phiClosure(ir.Resolve(v)) {
+					if ex, isEx := ir.Resolve(o).(*ssa.Extract); isEx && ex.Tuple == ssa.Value(g) && ex.Index == idx {
+						return true
+					}
+					if ir.Resolve(o) == ssa.Value(g) {
+						return true
+					}
+				}
+				return false
 			}
-			if ex, isEx := ir.Resolve(ir.ResultValue(ret, 0)).(*ssa.Extract); isEx && ex.Tuple == ssa.Value(g) && ex.Index == 0 {
-				okV = true
-			}
-			if ex, isEx := ir.Resolve(ir.ResultValue(ret, 1)).(*ssa.Extract); isEx && ex.Tuple == ssa.Value(g) && ex.Index == 1 {
-				okE = true
-			}
-			c.Decide("C08.R5", fn, "result of the re-creation is returned as it is", ret, okV && okE, "the value or the error of the re-creation of an expired item is not returned to the caller: a failed re-creation is reported as success with a zero value")
+			okV := carries(ir.ResultValue(ret, 0), 0)
+			okE := carries(ir.ResultValue(ret, 1), 1) || ir.Resolve(ir.ResultValue(ret, 0)) == ssa.Value(g)
+			c.Decide(rule, fn, "result of the re-creation is returned as it is", ret, okV && okE, "the value or the error of the re-creation of an expired item does not reach the caller: a failed re-creation is reported as success with a zero value")
 		}
 	}
 	// the fresh edge returns the cached value unchanged
@@ -559,10 +600,10 @@ func (c *Ctx) expirableWrapper(r *lruRoles) {
 			if ex, isEx := ir.Resolve(ir.ResultValue(ret, 0)).(*ssa.Extract); isEx && ex.Tuple == ssa.Value(first) && ex.Index == 0 {
 				ok = true
 			}
-			c.Decide("C08.R5", fn, "fresh item returned unchanged", ret, ok, "a fresh (not expired) item is not returned as it was found")
+			c.Decide(rule, fn, "fresh item returned unchanged", ret, ok, "a fresh (not expired) item is not returned as it was found")
 		}
 	}
-	c.R.Floor("C08.R5", 2)
+	c.R.Floor(rule, 2)
 }
 
 func runC09(c *Ctx) {
@@ -726,6 +767,59 @@ func runC09(c *Ctx) {
 		}
 	}
 
+	lruCapacityRule(c, r, "C09.R4")
+	c.R.Floor("C09.R4", 2)
+
+	// R5 the delete callback runs under the mutex, in the critical section of the removal it belongs to
+	for _, fn := range r.methods {
+		ls := ir.ComputeLockset(fn, nil)
+		ir.Instrs(fn, func(in ssa.Instruction) {
+			cb := fnValueCall(in, r.onDel)
+			if cb == nil {
+				return
+			}
+			held := ls.Held(in, mpath)
+			c.Decide("C09.R5", fn, "delete callback under the cache mutex", in, held, "the delete callback runs after the mutex was released: Clear/Remove can complete while a value is still being deleted, and a new value for the key can be created before the old one is deleted")
+			if held {
+				// the removal it reports happened in this critical section: no Lock between a Remove and the callback
+				bad := false
+				ir.Instrs(fn, func(rm ssa.Instruction) {
+					if r.itemsCall(rm, r.mRemove) == nil || !ir.Dominates(rm, in) {
+						return
+					}
+					ir.Instrs(fn, func(l ssa.Instruction) {
+						if !r.isLock(l) {
+							return
+						}
+						w1, _ := (ir.Query{Fn: fn, From: rm, Block: func(x ssa.Instruction) bool { return x == in }, Target: func(x ssa.Instruction) bool { return x == l }}).Find()
+						w2, _ := (ir.Query{Fn: fn, From: l, Block: func(x ssa.Instruction) bool { return x == rm }, Target: func(x ssa.Instruction) bool { return x == in }}).Find()
+						if w1 != nil && w2 != nil {
+							bad = true
+						}
+					})
+				})
+				c.Decide("C09.R5", fn, "callback in the critical section of its removal", in, !bad, "the mutex is released between the removal and its delete callback")
+			}
+		})
+	}
+	c.R.Floor("C09.R5", 6)
+
+	// Q: every history must be a sequential LRU history, so the sequential rules apply too
+	lruSequentialRules(c, "C09.Q")
+}
+
+// lruCapacityRule is C09.R4 / C11.R4.
+func lruCapacityRule(c *Ctx, r *lruRoles, rule string) {
+	goc := r.getOrCreate
+	var createCall *ssa.Call
+	ir.Instrs(goc, func(in ssa.Instruction) {
+		if cc := fnValueCall(in, r.create); cc != nil {
+			createCall = cc
+		}
+	})
+	if createCall == nil {
+		c.Fatalf("GetOrCreate: create call not found")
+	}
 	// R4 capacity
 	{
 		n := 0
@@ -754,12 +848,12 @@ func runC09(c *Ctx) {
 				_, capY := loadOfField(cm.Y, r.capacity)
 				return (lenX && capY) || (capX && lenY)
 			}
-			c.NoPath("C09.R4", "insert followed by the capacity test before unlock", add, ir.Query{Fn: goc, From: add, Block: isCapTest,
+			c.NoPath(rule, "insert followed by the capacity test before unlock", add, ir.Query{Fn: goc, From: add, Block: isCapTest,
 				Target: func(x ssa.Instruction) bool { return r.isUnlock(x) || ir.IsExit(x) }},
 				"a value is inserted and the lock released without the capacity test: with overlapping creations the cache stays above its capacity")
 		})
 		if n == 0 {
-			c.Decide("C09.R4", goc, "miss path inserts under the creator", nil, false, "no insert after the create call found")
+			c.Decide(rule, goc, "miss path inserts under the creator", nil, false, "no insert after the create call found")
 		}
 		// the eviction happens in the same critical section as the insert: Remove of First dominated by the Add
 		ir.Instrs(goc, func(in ssa.Instruction) {
@@ -778,10 +872,9 @@ func runC09(c *Ctx) {
 							}
 						}
 					})
-					c.Decide("C09.R4", goc, "eviction decided after the insert of this creation", rem, okDom, "the eviction is decided before the created value is inserted (a different critical section): overlapping creations each see room and nobody evicts")
+					c.Decide(rule, goc, "eviction decided after the insert of this creation", rem, okDom, "the eviction is decided before the created value is inserted (a different critical section): overlapping creations each see room and nobody evicts")
 				}
 			}
 		})
 	}
-	c.R.Floor("C09.R4", 2)
 }
